@@ -111,4 +111,14 @@ theorem tiling_no_inserted_newline (s : List UInt8) (ts : List Tok) (ht : Tiling
 
 example : Tiling f7cSource f7cTokens ∧ ¬ H3 f7cTokens := ⟨f7c_tiling, by decide⟩
 
+/-- regression (C18 F29 / C12-F7, fixed by /repo 'space between `-` and a comment'): a `-` token
+whose whitespace was removed, followed by the comment `--c`, is written `- --c`, not `---c`. -/
+example : (run init [.token [97] (some 1) true none, .token [45] (some 1) true none,
+    .trivia true [45, 45, 99]]).out = [97, 45, 32, 45, 45, 99] := by decide
+
+/-- regression (C12-F11, fixed by /repo 'separator after a number ending with a dot'): `5.`
+followed by the identifier `e` (whitespace removed) is written `5. e`, not `5.e`. -/
+example : (run init [.token [53, 46] (some 1) true none, .token [101] (some 1) true none]).out =
+    [53, 46, 32, 101] := by decide
+
 end DarkluaModel.C03
